@@ -156,6 +156,32 @@ def api_stage(ev, prop, tier, seed):
     return out, cases
 
 
+def api_cases_stage(ev, prop, tier, seed):
+    """The Api machine's extreme strings (integers at and beyond the I-JSON and i64 limits, truncated strings), each labelled
+    by the recogniser, replayed as accept/reject cases (C07: an invalid one must be rejected, a valid one accepted)."""
+    from checklib import run_replay, _acc
+    allc = os.path.join(WORK, f"{prop}-apicases-{os.getpid()}.all")
+    r = run_tlc("Api", env={"VERIF_TIER": tier, "VERIF_SEED": str(seed)}, cases_path=allc, timeout=900, workers=4)
+    ev.add_tlc("Api (source of extreme strings)", r, "")
+    cases = os.path.join(WORK, f"{prop}-apicases-{os.getpid()}.cases")
+    n = 0
+    with open(allc) as f, open(cases, "w") as out:
+        for line in f:
+            c = json.loads(line)
+            if c.get("kind") == "extreme":
+                out.write(json.dumps({"id": c["id"], "kind": "extreme", "q": c["q"], "verdict": c["verdict"], "docs": []}) + "\n")
+                n += 1
+    os.remove(allc)
+    if n == 0:
+        raise ToolError("Api exported no extreme strings")
+    mism, summary = run_replay("replay", ["--checks", "reject,accept"], cases)
+    ev.traces += summary["cases"]
+    ev.evaluations += summary["cases"]
+    ev.distinct_nontrivial += summary["distinct"]
+    _acc(ev, summary)
+    return mism, cases
+
+
 # ----------------------------------------------------------------------------- classifiers
 def _cls_deep_nesting_overflow(m, params):
     # D15: the recursive-descent parser overflows the stack on filter/parenthesis nesting of several thousand levels
@@ -180,13 +206,24 @@ def _cls_np_double_quoted_route(m, params):
     return all(_DQ_STEP.sub(lambda mo: "['" + mo.group(1) + "']", ap) == xp for ap, xp in zip(a, x))
 
 
-_ESC = re.compile(r"""\\(u[0-9A-Fa-f]{4}|['"bfnrt/\\])""")
+def _has_undecoded_escape(q):
+    """Does the query text contain an escape sequence the implementation does not decode?  In NAME selectors it rewrites
+    \\\\ and \\/ itself (normalize_json_key), so those two alone do not count; every other escape (\\' \\" \\b \\f \\n \\r \\t \\uXXXX) does."""
+    i = 0
+    while i < len(q):
+        if q[i] == "\\" and i + 1 < len(q):
+            if q[i + 1] not in "\\/":
+                return True
+            i += 2
+        else:
+            i += 1
+    return False
 
 
 def _cls_escape_not_decoded(m, params):
     # D10 (pinned by query::tests::tab_key / carr_return): escape sequences in name selectors and string literals are
     # never decoded, so a query that spells a name or literal with an escape looks for the raw text instead
-    return bool(m.get("trace")) and m.get("check") in ("nodes", "order", "paths", "seg") and bool(_ESC.search(m.get("q", "")))
+    return m.get("check") in ("nodes", "order", "paths", "seg", "entry", "j", "prog") and _has_undecoded_escape(m.get("q", ""))
 
 
 CLASSIFIERS["deep_nesting_overflow"] = _cls_deep_nesting_overflow
